@@ -98,6 +98,10 @@ def make_msg(data, as_file=False, tags=0):
         if len(data) % 2:
             msg.data_set = io.BytesIO(b'\x5A' * 192 + data)      # positioned behind a header of its own
             msg.data_set.seek(192)
+        elif len(data) % 4 == 2:
+            # a raw stream whose read(n) may deliver fewer than n bytes although more follow
+            from ..dimsegen import ShortReads
+            msg.data_set = ShortReads(data)
         else:
             msg.data_set = io.BytesIO(data)
     else:
